@@ -14,7 +14,9 @@
             scope     where in the handler the value is returned / the exception raised: "top" | "indent" (inside
                       `with io.indent(2):`) | "increment" (`with io.increment_indent(2):`) | "output" (`with
                       io.output.indent(2):`) - an indentation scope must not change what the run amounts to,
-            hroute    how the handler is configured: "object" | "factory" (a callable returning it) | "method" (another
+            hroute    how the handler is configured: "object" | "factory" (a callable returning it: a lambda; factory_fn /
+                      factory_class / factory_method / factory_partial / factory_callable: a function, the class itself, a
+                      bound method, a functools.partial, an object with __call__) | "method" (another
                       handler_method name) | "callback2" / "callback3" / "callbackv" (CallbackHandler around a function of
                       two / three / any number of parameters);  exit: terminate_after_run - the status then arrives as sys.exit(status).
                       Neither may change what the run amounts to]
@@ -54,6 +56,7 @@ ConvClass(v) == CASE v = "inf" -> "OverflowError" [] v = "list" -> "TypeError" [
 \* Code*: exceptions carrying a `code` attribute that is no exit status: a method, None, a string, a float, an integer
 \* out of range.  NotPython / Undecodable: raised by code compiled under the name of an existing file that is a template /
 \* binary.  Sol*: the exception brings a crashtest solution (plain; description None; title None).  LongContext: the last
+\* AngleText: the message holds angle-bracket text that is no style (List<int>, <module>) - it must be shown.
 \* TypeError / TypeErrorOnce: a TypeError raised by the handler's own body (Once: it would succeed if it were invoked again
 \* in the same run - it must not be).  LongContext: the last
 \* of 1500 exceptions linked through __context__; CircularContext: its context chain is a circle.  TagFile: raised by code compiled under the file name "</error>".  TagCloseOpen / LibraryCloseOpen: the message closes a tag it did not open and leaves another one open.
@@ -61,7 +64,7 @@ CodeKinds == {"WithCode", "CodeMethod", "CodeNone", "CodeString", "CodeFloat", "
 Kinds == {"Foreign", "Library", "KeyboardInterrupt", "Chained", "TagOpen", "TagClose", "TagUnbalanced", "TagCloseOpen",
           "MultiLine", "NonAscii", "Backslash", "NoSource", "StrFails", "LibraryTagged", "LibraryBackslash",
           "LibraryCloseOpen", "TagFile", "NotPython", "Undecodable", "SolPlain", "SolNoDesc", "SolNoTitle",
-          "LongContext", "CircularContext", "TypeError", "TypeErrorOnce"} \cup CodeKinds
+          "LongContext", "CircularContext", "TypeError", "TypeErrorOnce", "AngleText"} \cup CodeKinds
 Scopes == {"top", "indent", "increment", "output"}
 IsInterrupt(k) == k = "KeyboardInterrupt"
 IsLibrary(k) == k \in {"Library", "LibraryTagged", "LibraryBackslash", "LibraryCloseOpen"}          \* CliKitException subclasses: simple report
